@@ -472,8 +472,14 @@ class HttpProxyPlugin(HttpProtocolHandlerPlugin):
                             self.pipeline_request.build(),
                         ),
                     )
+                    # Bytes following this request within the same read
+                    # belong to the next pipelined request.
+                    remaining = self.pipeline_request.buffer
+                    self.pipeline_request.buffer = None
                     if not self.pipeline_request.is_connection_upgrade:
                         self.pipeline_request = None
+                    if remaining is not None:
+                        self.on_client_data(remaining)
             # For scenarios where we cannot peek into the data,
             # simply queue for upstream server.
             else:
